@@ -494,7 +494,7 @@ func c15Template(c *eng.Ctx) {
 func c15KeyChecks(c *eng.Ctx) {
 	c.Clause("R2", "C15.7")
 	if f := c.Fn("pki.generateCert"); f != nil {
-		gcb := instrsOf(eng.Calls(f, `^pki\.generateCreationBundle$`))
+		gcb := c15SiteAts(c15Sites(f, `^pki\.generateCreationBundle$`))
 		if c.Floor(f, "generateCreationBundle call", len(gcb), 1) {
 			c.Cut(f, "generateCreationBundle (issue)", gcb, eng.Or(eng.G(f, `^input\.role\.KeyType == "rsa"$`, false), eng.G(f, `^input\.role\.KeyBits < 2048$`, false)), nil)
 			c.Cut(f, "generateCreationBundle (issue)", gcb, eng.G(f, `^input\.role == nil$`, false), nil)
@@ -504,7 +504,7 @@ func c15KeyChecks(c *eng.Ctx) {
 	if f == nil {
 		return
 	}
-	gcb := instrsOf(eng.Calls(f, `^pki\.generateCreationBundle$`))
+	gcb := c15SiteAts(c15Sites(f, `^pki\.generateCreationBundle$`))
 	if !c.Floor(f, "generateCreationBundle call", len(gcb), 1) {
 		return
 	}
@@ -539,7 +539,7 @@ func c15KeyChecks(c *eng.Ctx) {
 	c.Cut(f, "generateCreationBundle (role key_type=any)", gcb, eng.GCallOK(f, `^certutil\.ValidateDefaultOrValueKeyTypeSignatureLength$`), map[string]bool{`^data\.role\.KeyType == "any"$`: true})
 
 	if g := c.Fn("pki.(*backend).pathIssue"); g != nil {
-		is := instrsOf(eng.Calls(g, `^pki\.\(\*backend\)\.pathIssueSignCert$`))
+		is := c15SiteAts(c15Sites(g, `^pki\.\(\*backend\)\.pathIssueSignCert$`))
 		if c.Floor(g, "pathIssueSignCert call", len(is), 1) {
 			c.Cut(g, "issuance with a role of key_type=any", is, eng.GCallOK(g, `^certutil\.ValidateDefaultOrValueKeyTypeSignatureLength$`), map[string]bool{`^role\.KeyType == "any"$`: true})
 		}
@@ -597,52 +597,61 @@ func c15Endpoints(c *eng.Ctx) {
 		if f == nil {
 			continue
 		}
-		for _, s := range eng.Calls(f, `^pki\.\(\*backend\)\.pathIssueSignCert$`) {
-			a := s.Common().Args
+		wiring := c15Sites(f, `^pki\.\(\*backend\)\.pathIssueSignCert$`)
+		c.Floor(f, "pathIssueSignCert call", len(wiring), 1)
+		for _, st := range wiring {
+			s := st.Call
 			c.Clause("R12", "C15.8")
-			if eng.Expr(a[5]) == w[0] && eng.Expr(a[6]) == w[1] {
+			if eng.Expr(st.Arg(5)) == w[0] && eng.Expr(st.Arg(6)) == w[1] {
 				c.OK(f, "const{useCSR, useCSRValues}", s.Pos(), "("+w[0]+", "+w[1]+")")
 			} else {
-				c.Violation(f, "const{useCSR, useCSRValues}", s.Pos(), "passes ("+eng.Expr(a[5])+", "+eng.Expr(a[6])+"), expected ("+w[0]+", "+w[1]+"): CSR values would bypass role validation", nil)
+				c.Violation(f, "const{useCSR, useCSRValues}", s.Pos(), "passes ("+eng.Expr(st.Arg(5))+", "+eng.Expr(st.Arg(6))+"), expected ("+w[0]+", "+w[1]+"): CSR values would bypass role validation", nil)
 			}
 			c.Clause("R5", "C15.8")
 			if fn == "pki.(*backend).pathSignVerbatim" {
-				c.Prov(f, "role used by sign-verbatim", s, a[4], `^call:pki\.buildSignVerbatimRole$`)
+				c.Prov(f, "role used by sign-verbatim", s, st.Arg(4), `^call:pki\.buildSignVerbatimRole$`)
 			} else {
-				c.Prov(f, "role used for issuance", s, a[4], `^param:role$`)
+				c.Prov(f, "role used for issuance", s, st.Arg(4), `^param:role$`)
 			}
 		}
 	}
 	if f := c.Fn("pki.(*backend).pathIssueSignCert"); f != nil {
 		c.Clause("R5", "C15.8")
-		for _, s := range eng.Calls(f, `^pki\.(generateCert|signCert)$`) {
-			in := s.Common().Args[1]
-			for _, v := range eng.StructLitField(in, "role") {
+		for _, st := range c15Sites(f, `^pki\.(generateCert|signCert)$`) {
+			s := st.Call
+			in := st.Arg(1)
+			roles, datas := eng.StructLitField(in, "role"), eng.StructLitField(in, "apiData")
+			if len(roles) == 0 || len(datas) == 0 {
+				c.Undecided(f, "input bundle handed to "+st.Name, s.Pos(), "the input bundle is not a locally built literal with role and apiData: "+eng.ExprDeep(in)+" (moved? the rule cannot be evaluated)")
+			}
+			for _, v := range roles {
 				c.Prov(f, "role validated against", s, v, `^param:role$`)
 			}
-			for _, v := range eng.StructLitField(in, "apiData") {
+			for _, v := range datas {
 				c.Prov(f, "request data validated", s, v, `^param:data$`)
 			}
-			if eng.CalleeName(s.Common()) == "pki.signCert" {
-				c.Prov(f, "useCSRValues handed to signCert", s, s.Common().Args[4], `^param:useCSRValues$`)
+			if st.Name == "pki.signCert" {
+				c.Prov(f, "useCSRValues handed to signCert", s, st.Arg(4), `^param:useCSRValues$`)
 			}
 		}
 	}
 	if f := c.Fn("pki.issueCertFromCsr"); f != nil {
-		for _, s := range eng.Calls(f, `^pki\.signCert$`) {
+		acme := c15Sites(f, `^pki\.signCert$`)
+		for _, st := range acme {
+			s := st.Call
 			c.Clause("R12", "C15.8")
-			if got := eng.Expr(s.Common().Args[4]); got == "false" {
+			if got := eng.Expr(st.Arg(4)); got == "false" {
 				c.OK(f, "const{useCSRValues (ACME)}", s.Pos(), "false")
 			} else {
 				c.Violation(f, "const{useCSRValues (ACME)}", s.Pos(), "ACME passes useCSRValues="+got, nil)
 			}
 			c.Clause("R5", "C15.8")
-			for _, v := range eng.StructLitField(s.Common().Args[1], "role") {
+			for _, v := range eng.StructLitField(st.Arg(1), "role") {
 				c.Prov(f, "role validated against (ACME)", s, v, `^field:ac\.role$`)
 			}
 		}
 		c.Clause("R2", "C15.8")
-		sc := instrsOf(eng.Calls(f, `^pki\.signCert$`))
+		sc := c15SiteAts(acme)
 		if len(sc) > 0 {
 			c.Cut(f, "signCert (ACME)", sc, eng.GCallOK(f, `^pki\.getCertificateNotAfter$`), nil)
 		}
@@ -683,17 +692,17 @@ func c15Endpoints(c *eng.Ctx) {
 	// CEL endpoints: only a template verdict leads to a signature
 	if f := c.Fn("pki.(*backend).pathCelIssueSignCert"); f != nil {
 		c.Clause("R2", "C15.8")
-		sg := instrsOf(eng.Calls(f, `^pki\.(generateCELCert|signCELCert)$`))
-		if c.Floor(f, "CEL signing calls", len(sg), 2) {
+		cel := c15Sites(f, `^pki\.(generateCELCert|signCELCert)$`)
+		sg := c15SiteAts(cel)
+		if c.Floor(f, "CEL signing calls", len(cel), 2) {
 			c.Cut(f, "CEL signing", sg, eng.GCallOK(f, `\.Evaluate$`), nil)
 			c.Cut(f, "CEL signing", sg, eng.GCallOK(f, `^pki\.CertProtoToX509$`), nil)
 			c.Cut(f, "CEL signing", sg, eng.GCallOK(f, `^pki\.\(\*backend\)\.fetchCaSigningBundle$`), nil)
 			c.Cut(f, "CEL signing", sg, eng.G(f, `\.\(\*google\.golang\.org/protobuf/types/dynamicpb\.Message\)#1$`, true), nil)
 			c.Clause("R5", "C15.8")
-			for _, s := range sg {
-				a := s.(ssa.CallInstruction).Common().Args
-				c.Prov(f, "CEL template", s, a[2], `^call:pki\.CertProtoToX509#0$`)
-				c.Prov(f, "CEL signing bundle", s, a[1], `^call:pki\.\(\*backend\)\.fetchCaSigningBundle#0$`)
+			for _, st := range cel {
+				c.Prov(f, "CEL template", st.Call, st.Arg(2), `^call:pki\.CertProtoToX509#0$`)
+				c.Prov(f, "CEL signing bundle", st.Call, st.Arg(1), `^call:pki\.\(\*backend\)\.fetchCaSigningBundle#0$`)
 			}
 		}
 	}
